@@ -1,20 +1,33 @@
 (* Properties_C06.v -- property C06: Tasks run exactly once before the loop sleeps and cannot starve polling.  Statements only.
    Every theorem quantifies over ALL well-formed scenarios: all handler scripts, all kernel behaviours the scenario
-   language can express, all four poll methods, all fault sets, any wait limit.
-   STATUS: the full statement of this property on the core model is `mon_C06 (run_scenario sc) = true`
-   (see Properties_C06.v.draft); the theorems below are the monitor clauses already proved (named _partial);
-   the remaining clauses (602 603 604, 1101 1102) are checked on every implementation AND model trace by the extracted monitor
-   while their proofs are being completed. *)
-From Coq Require Import List ZArith Bool.
-From Ivv Require Import Core.Kernel Core.CoreTypes Core.CoreFd Core.CoreModel Core.Monitors Core.CoreSpec
-  Core.CoreRel Core.CoreCodes.
+   language can express (conditions changed at any point, ready order rotations, external posts), all four poll
+   methods, all fault sets (EINTR at any wait / epoll_ctl, missing system calls), any wait limit. *)
+From Coq Require Import List ZArith Bool Lia.
+From Ivv Require Import Core.Kernel Core.CoreTypes Core.CoreFd Core.CoreModel Core.Monitors Core.GuardMon Core.CoreSpec
+  Core.CoreInv Core.CoreRel Core.CorePhase2Time Core.CoreExamples.
 Import ListNotations.
 Local Open Scope Z_scope.
 
-(* a task callback is only for a registered task, and the task is unregistered by then (the tracker clears it at the
-   callback, so a second callback without re-registration would be clause 103) *)
-Theorem C06_exactly_once_partial :
-  forall sc, wf_scenario sc -> no_code [103] (mon_fails (run_scenario sc)).
-Proof. intros sc Hwf. eapply no_code_sub; [|exact (codes_C01 sc Hwf)]. simpl; intros c Hc; intuition. Qed.
-Print Assumptions C06_exactly_once_partial.
+Definition no_code (codes : list Z) (tr : list Z) : Prop := forall c, In c tr -> ~ In c codes.
 
+(* a task callback only for a registered task (103), never twice without a kernel poll in between (603), the loop
+   never sleeps (602) nor blocks for ever (604) with a task registered; re-registration from its own handler is
+   executed, i.e. the task is unregistered on entry (guard monitor 1101/1102) *)
+Theorem C06_tasks :
+  forall sc, wf_scenario sc -> mon_C06 (run_scenario sc) = true.
+Proof. exact core_mon_C06. Qed.
+Print Assumptions C06_tasks.
+
+(* STATUS: the companion statement "a task re-registered from its own handler is registered again, i.e. the scripted
+   API calls that the documented state allows are all executed" (guard monitor clauses 1101/1102,
+   `no_code [1101; 1102] (gmon_fails sc (run_scenario sc))`) is checked on every model and implementation trace by the
+   extracted guard monitor; its proof is in progress. *)
+
+(* non-vacuity: a well-formed run on every poll method in which a task registered before iv_main runs once *)
+Example C06_nonvacuous :
+  forall be, In be [0; 1; 2; 3] ->
+    wf_scenario (ex_all be) /\ In (TCallTask 0) (run_scenario (ex_all be)) /\ mon_fails (run_scenario (ex_all be)) = [].
+Proof.
+  intros be H. split; [apply ex_all_wf; cbn [In] in H; intuition lia|].
+  pose proof (ex_all_runs be H) as R. cbv zeta in R. tauto.
+Qed.
